@@ -2,6 +2,7 @@ package common
 
 import (
 	"fmt"
+	"go/constant"
 	gotypes "go/types"
 	"sort"
 	"strings"
@@ -442,6 +443,19 @@ func UniverseOracles(prop string, snap *USnap, c *Checked, prog *Program, reques
 					continue
 				}
 				u.describes(o.Under, obj.Type(), "const "+path+"."+n)
+				// the value: a string constant's is the string itself (whatever its declared type), any other the
+				// type checker's rendering
+				wantVal := obj.Val().String()
+				if obj.Val().Kind() == constant.String {
+					wantVal = constant.StringVal(obj.Val())
+				}
+				if o.ConstVal == nil || *o.ConstVal != wantVal {
+					got := "<none>"
+					if o.ConstVal != nil {
+						got = *o.ConstVal
+					}
+					u.fail("constant-value", fmt.Sprintf("const %s.%s: reported value %q, the type checker has %q", path, n, got, wantVal))
+				}
 			}
 		}
 	}
